@@ -21,7 +21,7 @@ pub mod stdlib {
     pub use std::{string, borrow};
     pub use std::vec::Vec;
 }
-pub mod num_bigint { pub use crate::shim::{BigInt, BigUint, Sign, ParseBigIntError}; }
+pub mod num_bigint { pub use crate::shim::{BigInt, BigUint, Sign, ParseBigIntError, ToBigInt}; }
 pub mod num_traits { pub use crate::shim::{Zero, One, Signed, ToPrimitive, CheckedSub}; }
 pub mod num_integer { pub use crate::shim::NumInteger as Integer; }
 
